@@ -530,5 +530,340 @@ theorem alphChunk_safe (hV : ValidateNP) (r : RS) (k w h pos : Nat) (hk : k ≤ 
   intro r3 p3 ⟨f1, f2, f3⟩
   exact ⟨by omega, f2, f3⟩
 
+
+/-- "nothing bad happened": the cursor moved forward and peeked headers are still justified -/
+def Fwd (pos : Nat) (r' : RS) (pos' : Nat) : Prop := pos ≤ pos' ∧ PeekInv r' pos'
+
+theorem trailingLoop_safe (hV : ValidateNP) (cfg : Config) (k : Nat) (inAnmf : Bool) (fuel : Nat) (r : RS) (pos : Nat)
+    (hk : k ≤ 2) (hinv : PeekInv r pos) :
+    Safe (idealOps s kind) (trailingLoop cfg k inAnmf fuel r) pos
+      (fun o pos' => ∀ r', o = some r' → Fwd pos r' pos') := by
+  induction fuel generalizing r pos with
+  | zero => exact Safe.done (by intro r' h; cases h)
+  | succ n ih =>
+    unfold trailingLoop
+    apply Safe.bind
+    apply Safe.mono (hasRemaining_safe s kind r k pos hk hinv)
+    intro x p1 ⟨h1, h2, h3⟩
+    obtain ⟨more, r1⟩ := x
+    dsimp only at h2 h3 ⊢
+    split
+    · exact Safe.done (by intro r' h; cases h; exact ⟨h1, h2⟩)
+    · apply Safe.bind
+      apply Safe.mono (readAnyHeader_safe s kind r1 k p1 hk h2)
+      intro y p2 ⟨g1, g2, g3⟩
+      obtain ⟨name, r2⟩ := y
+      dsimp only at g2 g3 ⊢
+      split
+      · exact Safe.fail
+      · split
+        · exact Safe.fail
+        · apply Safe.bind
+          apply Safe.mono (skipData_safe s kind r2 k p2 hk g2 (inChunk_not_peek g3))
+          intro r3 p3 ⟨f1, f2, f3⟩
+          apply Safe.mono (ih r3 p3 f2)
+          intro o p4 ho r' hr
+          have := ho r' hr
+          exact ⟨by have := this.1; omega, this.2⟩
+
+theorem sanitizeStill_safe (hV : ValidateNP) (r : RS) (flags cw ch pos : Nat) (hinv : PeekInv r pos) :
+    Safe (idealOps s kind) (sanitizeStill r flags cw ch) pos (fun r' pos' => Fwd pos r' pos') := by
+  unfold sanitizeStill
+  dsimp only
+  apply Safe.bind
+  have first : Safe (idealOps s kind)
+      (if flagSet flags 16 = true then (readHeader r 1 FALPH).bind fun r => alphChunk r 1 cw ch else Prog.done r) pos
+      (fun r' pos' => Fwd pos r' pos') := by
+    split
+    · apply Safe.bind
+      apply Safe.mono (readHeader_safe s kind r 1 pos FALPH (by decide) hinv)
+      intro r1 p1 ⟨a1, a2, a3⟩
+      apply Safe.mono (alphChunk_safe s kind hV r1 1 cw ch p1 (by decide) a2 (inChunk_not_peek a3))
+      intro r2 p2 ⟨b1, b2, _⟩
+      exact ⟨by omega, b2⟩
+    · exact Safe.done ⟨Nat.le_refl _, hinv⟩
+  apply Safe.mono first
+  intro r1 p1 ⟨a1, a2⟩
+  apply Safe.bind
+  apply Safe.mono (hasRemaining_safe s kind r1 1 p1 (by decide) a2)
+  intro x p2 ⟨b1, b2, _⟩
+  obtain ⟨more, r2⟩ := x
+  dsimp only at b2 ⊢
+  split
+  · exact Safe.fail
+  · apply Safe.bind
+    apply Safe.mono (readAnyHeader_safe s kind r2 1 p2 (by decide) b2)
+    intro y p3 ⟨c1, c2, c3⟩
+    obtain ⟨name, r3⟩ := y
+    dsimp only at c2 c3 ⊢
+    split
+    · apply Safe.mono (skipData_safe s kind r3 1 p3 (by decide) c2 (inChunk_not_peek c3))
+      intro r4 p4 ⟨d1, d2, _⟩
+      exact ⟨by omega, d2⟩
+    · split
+      · split
+        · exact Safe.fail
+        · apply Safe.mono (vp8lChunk_safe s kind hV r3 1 p3 _ (by decide) c2 (inChunk_not_peek c3))
+          intro r4 p4 ⟨d1, d2, _⟩
+          exact ⟨by omega, d2⟩
+      · exact Safe.fail
+
+
+theorem PeekInv.setIdle {r : RS} {pos : Nat} (h : PeekInv r pos) (k : Nat) : PeekInv (r.set k .idle) pos :=
+  h.set k .idle (by simp [isPeek])
+
+theorem sanitizeFrame_safe (hV : ValidateNP) (cfg : Config) (r : RS) (flags cw ch fuel pos : Nat) (hinv : PeekInv r pos) :
+    Safe (idealOps s kind) (sanitizeFrame cfg r flags cw ch fuel) pos
+      (fun o pos' => ∀ r', o = some r' → Fwd pos r' pos') := by
+  unfold sanitizeFrame
+  apply Safe.bind
+  apply Safe.mono (readHeader_safe s kind r 1 pos FANMF (by decide) hinv)
+  intro r1 p1 ⟨a1, a2, a3⟩
+  apply Safe.bind
+  apply Safe.mono (parseData_safe s kind r1 1 p1 _ (by decide) a2 (inChunk_not_peek a3))
+  intro x p2 ⟨b1, b2, _⟩
+  obtain ⟨vs, r2⟩ := x
+  dsimp only at b2 ⊢
+  apply Safe.bind
+  -- optional ALPH inside the frame
+  have alph : Safe (idealOps s kind)
+      (if flagSet flags 16 = true then
+        (peekHeader (r2.set 2 .idle) 2).bind fun x =>
+          match x with
+          | (nm, r) =>
+            if nm = some FALPH then (readHeader r 2 FALPH).bind fun r => (alphChunk r 2 cw ch).bind fun r => Prog.done (true, r)
+            else Prog.done (false, r)
+       else Prog.done (false, r2.set 2 .idle)) p2
+      (fun y pos' => Fwd p2 y.2 pos') := by
+    split
+    · apply Safe.bind
+      apply Safe.mono (peekHeader_safe s kind (r2.set 2 .idle) 2 p2 (by decide) (b2.setIdle 2))
+      intro y p3 ⟨c1, c2, _⟩
+      obtain ⟨nm, r3⟩ := y
+      dsimp only at c2 ⊢
+      split
+      · apply Safe.bind
+        apply Safe.mono (readHeader_safe s kind r3 2 p3 FALPH (by decide) c2)
+        intro r4 p4 ⟨d1, d2, d3⟩
+        apply Safe.bind
+        apply Safe.mono (alphChunk_safe s kind hV r4 2 cw ch p4 (by decide) d2 (inChunk_not_peek d3))
+        intro r5 p5 ⟨e1, e2, _⟩
+        exact Safe.done ⟨by omega, e2⟩
+      · exact Safe.done ⟨c1, c2⟩
+    · exact Safe.done ⟨Nat.le_refl _, b2.setIdle 2⟩
+  apply Safe.mono alph
+  intro y p3 ⟨c1, c2⟩
+  obtain ⟨sawAlph, r3⟩ := y
+  dsimp only at c2 ⊢
+  apply Safe.bind
+  apply Safe.mono (readAnyHeader_safe s kind r3 2 p3 (by decide) c2)
+  intro z p4 ⟨d1, d2, d3⟩
+  obtain ⟨name, r4⟩ := z
+  dsimp only at d2 d3 ⊢
+  apply Safe.bind
+  have img : Safe (idealOps s kind)
+      (if name = FVP8 then skipData r4 2
+       else if name = FVP8L then
+         if sawAlph = true then Prog.fail WErr.invalidChunkLayout else vp8lChunk r4 2 (some (vs.getD 2 0, vs.getD 3 0))
+       else Prog.fail WErr.invalidChunkLayout) p4
+      (fun r' pos' => Fwd p4 r' pos') := by
+    split
+    · apply Safe.mono (skipData_safe s kind r4 2 p4 (by decide) d2 (inChunk_not_peek d3))
+      intro r5 p5 ⟨e1, e2, _⟩; exact ⟨e1, e2⟩
+    · split
+      · split
+        · exact Safe.fail
+        · apply Safe.mono (vp8lChunk_safe s kind hV r4 2 p4 _ (by decide) d2 (inChunk_not_peek d3))
+          intro r5 p5 ⟨e1, e2, _⟩; exact ⟨e1, e2⟩
+      · exact Safe.fail
+  apply Safe.mono img
+  intro r5 p5 ⟨e1, e2⟩
+  apply Safe.mono (trailingLoop_safe s kind hV cfg 2 true fuel r5 p5 (by decide) e2)
+  intro o p6 ho r' hr
+  have := ho r' hr
+  exact ⟨by have := this.1; omega, this.2⟩
+
+theorem framesLoop_safe (hV : ValidateNP) (cfg : Config) (flags cw ch fuel n : Nat) (r : RS) (pos : Nat)
+    (hinv : PeekInv r pos) :
+    Safe (idealOps s kind) (framesLoop cfg flags cw ch fuel n r) pos
+      (fun o pos' => ∀ r', o = some r' → Fwd pos r' pos') := by
+  induction n generalizing r pos with
+  | zero => exact Safe.done (by intro r' h; cases h)
+  | succ m ih =>
+    unfold framesLoop
+    apply Safe.bind
+    apply Safe.mono (peekHeader_safe s kind r 1 pos (by decide) hinv)
+    intro x p1 ⟨a1, a2, _⟩
+    obtain ⟨nm, r1⟩ := x
+    dsimp only at a2 ⊢
+    split
+    · apply Safe.bind
+      apply Safe.mono (sanitizeFrame_safe s kind hV cfg r1 flags cw ch fuel p1 a2)
+      intro o p2 ho
+      cases o with
+      | none => exact Safe.done (by intro r' h; cases h)
+      | some r2 =>
+        have hf := ho r2 rfl
+        apply Safe.mono (ih r2 p2 hf.2)
+        intro o' p3 ho' r' hr
+        have := ho' r' hr
+        exact ⟨by have := this.1; have := hf.1; omega, this.2⟩
+    · exact Safe.done (by intro r' h; cases h; exact ⟨a1, a2⟩)
+
+theorem sanitizeAnimated_safe (hV : ValidateNP) (cfg : Config) (r : RS) (flags cw ch fuel pos : Nat) (hinv : PeekInv r pos) :
+    Safe (idealOps s kind) (sanitizeAnimated cfg r flags cw ch fuel) pos
+      (fun o pos' => ∀ r', o = some r' → Fwd pos r' pos') := by
+  unfold sanitizeAnimated
+  apply Safe.bind
+  apply Safe.mono (readHeader_safe s kind r 1 pos FANIM (by decide) hinv)
+  intro r1 p1 ⟨a1, a2, a3⟩
+  apply Safe.bind
+  apply Safe.mono (parseData_safe s kind r1 1 p1 _ (by decide) a2 (inChunk_not_peek a3))
+  intro x p2 ⟨b1, b2, _⟩
+  obtain ⟨vs, r2⟩ := x
+  dsimp only at b2 ⊢
+  apply Safe.bind
+  apply Safe.mono (peekHeader_safe s kind r2 1 p2 (by decide) b2)
+  intro y p3 ⟨c1, c2, _⟩
+  obtain ⟨nm, r3⟩ := y
+  dsimp only at c2 ⊢
+  split
+  · apply Safe.mono (framesLoop_safe s kind hV cfg flags cw ch fuel fuel r3 p3 c2)
+    intro o p4 ho r' hr
+    have := ho r' hr
+    exact ⟨by have := this.1; omega, this.2⟩
+  · exact Safe.fail
+
+
+theorem optChunk_safe (r : RS) (pos : Nat) (c : Bool) (name : Bytes) (hinv : PeekInv r pos) :
+    Safe (idealOps s kind) (if c = true then (readHeader r 1 name).bind fun r => skipData r 1 else Prog.done r) pos
+      (fun r' pos' => Fwd pos r' pos') := by
+  split
+  · apply Safe.bind
+    apply Safe.mono (readHeader_safe s kind r 1 pos name (by decide) hinv)
+    intro r1 p1 ⟨a1, a2, a3⟩
+    apply Safe.mono (skipData_safe s kind r1 1 p1 (by decide) a2 (inChunk_not_peek a3))
+    intro r2 p2 ⟨b1, b2, _⟩
+    exact ⟨by omega, b2⟩
+  · exact Safe.done ⟨Nat.le_refl _, hinv⟩
+
+theorem sanitizeExtended_safe (hV : ValidateNP) (cfg : Config) (r : RS) (flags cw ch fuel pos : Nat) (hinv : PeekInv r pos) :
+    Safe (idealOps s kind) (sanitizeExtended cfg r flags cw ch fuel) pos
+      (fun o pos' => ∀ r', o = some r' → Fwd pos r' pos') := by
+  unfold sanitizeExtended
+  apply Safe.bind
+  apply Safe.mono (optChunk_safe s kind r pos (flagSet flags 32) FICCP hinv)
+  intro r1 p1 ⟨a1, a2⟩
+  apply Safe.bind
+  have mid : Safe (idealOps s kind)
+      (if flagSet flags 2 = true then sanitizeAnimated cfg r1 flags cw ch fuel
+       else (sanitizeStill r1 flags cw ch).bind fun r => Prog.done (some r)) p1
+      (fun o pos' => ∀ r', o = some r' → Fwd p1 r' pos') := by
+    split
+    · exact sanitizeAnimated_safe s kind hV cfg r1 flags cw ch fuel p1 a2
+    · apply Safe.bind
+      apply Safe.mono (sanitizeStill_safe s kind hV r1 flags cw ch p1 a2)
+      intro r2 p2 h2
+      exact Safe.done (by intro r' h; cases h; exact h2)
+  apply Safe.mono mid
+  intro o p2 ho
+  cases o with
+  | none => exact Safe.done (by intro r' h; cases h)
+  | some r2 =>
+    have hf := ho r2 rfl
+    dsimp only
+    apply Safe.bind
+    apply Safe.mono (optChunk_safe s kind r2 p2 (flagSet flags 8) FEXIF hf.2)
+    intro r3 p3 ⟨b1, b2⟩
+    apply Safe.bind
+    apply Safe.mono (optChunk_safe s kind r3 p3 (flagSet flags 4) FXMP b2)
+    intro r4 p4 ⟨c1, c2⟩
+    exact Safe.done (by intro r' h; cases h; exact ⟨by have := hf.1; omega, c2⟩)
+
+/-- the whole WebP container sanitizer on the ideal cursor never panics (given that the lossless validator does
+    not): no chunk-reader protocol assertion, no unreachable padding state, no `stream_position - 8` underflow, no
+    codec read on a short buffer is reachable, for any input -/
+theorem sanitizeP_safe (hV : ValidateNP) (cfg : Config) (fuel : Nat) :
+    Safe (idealOps s kind) (sanitizeP cfg fuel) 0 (fun _ _ => True) := by
+  unfold sanitizeP
+  dsimp only
+  have h0 : PeekInv ({} : RS) 0 := ⟨by simp [isPeek], by simp [isPeek], by simp [isPeek]⟩
+  apply Safe.bind
+  apply Safe.mono (readHeader_safe s kind {} 0 0 FRIFF (by decide) h0)
+  intro r1 p1 ⟨a1, a2, a3⟩
+  apply Safe.bind
+  apply Safe.mono (readData_safe s kind r1 0 4 p1 (by decide) a2 (inChunk_not_peek a3))
+  intro x p2 ⟨⟨b1, b2, _⟩, _⟩
+  obtain ⟨b, r2⟩ := x
+  dsimp only at b2 ⊢
+  generalize riffLen r1.l0 = len
+  split
+  · exact Safe.fail
+  · split
+    · exact Safe.fail
+    · apply Safe.bind
+      apply Safe.mono (readAnyHeader_safe s kind (r2.set 1 .idle) 1 p2 (by decide) (b2.setIdle 1))
+      intro y p3 ⟨c1, c2, c3⟩
+      obtain ⟨name, r3⟩ := y
+      dsimp only at c2 c3 ⊢
+      apply Safe.bind
+      have first : Safe (idealOps s kind)
+          (if name = FVP8 then (skipData r3 1).bind fun r => Prog.done (some r)
+           else if name = FVP8L then (vp8lChunk r3 1 none).bind fun r => Prog.done (some r)
+           else if name = FVP8X then
+             (parseData r3 1 Generated.schemaVp8xChunk).bind fun x =>
+               match x with
+               | (vs, r) => sanitizeExtended cfg r (vs.getD 0 0) (vs.getD 2 0) (vs.getD 3 0) fuel
+           else Prog.fail WErr.invalidChunkLayout) p3
+          (fun o pos' => ∀ r', o = some r' → Fwd p3 r' pos') := by
+        split
+        · apply Safe.bind
+          apply Safe.mono (skipData_safe s kind r3 1 p3 (by decide) c2 (inChunk_not_peek c3))
+          intro r4 p4 ⟨d1, d2, _⟩
+          exact Safe.done (by intro r' h; cases h; exact ⟨d1, d2⟩)
+        · split
+          · apply Safe.bind
+            apply Safe.mono (vp8lChunk_safe s kind hV r3 1 p3 none (by decide) c2 (inChunk_not_peek c3))
+            intro r4 p4 ⟨d1, d2, _⟩
+            exact Safe.done (by intro r' h; cases h; exact ⟨d1, d2⟩)
+          · split
+            · apply Safe.bind
+              apply Safe.mono (parseData_safe s kind r3 1 p3 _ (by decide) c2 (inChunk_not_peek c3))
+              intro z p4 ⟨d1, d2, _⟩
+              obtain ⟨vs, r4⟩ := z
+              dsimp only at d2 ⊢
+              apply Safe.mono (sanitizeExtended_safe s kind hV cfg r4 _ _ _ fuel p4 d2)
+              intro o p5 ho r' hr
+              have := ho r' hr
+              exact ⟨by have := this.1; omega, this.2⟩
+            · exact Safe.fail
+      apply Safe.mono first
+      intro o p4 ho
+      cases o with
+      | none => exact Safe.done trivial
+      | some r4 =>
+        have hf := ho r4 rfl
+        dsimp only
+        apply Safe.bind
+        apply Safe.mono (trailingLoop_safe s kind hV cfg 1 false fuel r4 p4 (by decide) hf.2)
+        intro o2 p5 ho2
+        cases o2 with
+        | none => exact Safe.done trivial
+        | some r5 =>
+          have hf2 := ho2 r5 rfl
+          dsimp only
+          apply Safe.bind
+          apply Safe.mono (hasRemaining_safe s kind r5 0 p5 (by decide) hf2.2)
+          intro w p6 _
+          obtain ⟨more, r6⟩ := w
+          dsimp only
+          split
+          · exact Safe.fail
+          · apply Safe.position
+            apply Safe.streamLen
+            split
+            · exact Safe.done trivial
+            · exact Safe.fail
+
 end
 end MediaSan.Webp
